@@ -1,7 +1,8 @@
 (** C10 — Verifiable encryption: whatever verifies decrypts to the signed claim (group encoding; the byte
     decomposition behind scalar decryption is exercised on the implementation). *)
-From Coq Require Import List Bool Arith Field Ring.
+From Coq Require Import ZArith List Bool Arith Field Ring.
 From ACV Require Import Model.Field Model.Res Model.Pres Model.Preds Proofs.FieldP Proofs.PresP Proofs.PredsP.
+From ACV Require Import Model.Ints Model.Bytes Model.ByteDec Proofs.ByteDecP.
 Import ListNotations.
 
 Theorem C10_accept_venc_link : forall K (S : schema K) (P : pres K) fs,
@@ -62,3 +63,16 @@ Theorem C10_pseudonym_deterministic : forall gm dk m k k',
   fsub K (fadd K (fmul K gm m) (fmul K dk k)) (fmul K k dk) = fsub K (fadd K (fmul K gm m) (fmul K dk k')) (fmul K k' dk).
 Proof. intros. ring. Qed.
 End Dec.
+
+(** scalar decryption from the byte decomposition: every byte string that passes the verifier's
+    (field) sum check reassembles to the signed claim (decrypt_scalar after fix 29a40fd); on the
+    pinned tree the decomposition of m + r passed the check and decrypted to nothing, for every
+    claim below 2^256 - r *)
+Theorem C10_scalar_from_bytes : forall bs m, (0 <= m < rmod)%Z -> sum_check bs m -> reassemble_field bs = m.
+Proof. exact reassemble_field_sound. Qed.
+Theorem C10_pinned_noncanonical_bytes_refuted : forall m, (0 <= m < 2 ^ 256 - rmod)%Z ->
+  sum_check (to_be 32 (m + rmod)) m /\ reassemble_canonical (to_be 32 (m + rmod)) = None.
+Proof. exact reassemble_canonical_refuted_all. Qed.
+
+
+Print Assumptions C10_scalar_from_bytes.
